@@ -285,7 +285,7 @@ func (p *sysPlan) baseArgs() []string {
 }
 
 func genScript(lines []string, ps procSpec) simos.Script {
-	sc := simos.Script{StartErr: ps.StartErr, Endless: ps.Endless, ExitCode: ps.Exit, FinalMs: ps.FinalMs, Fork: ps.Fork, LingerMs: ps.LingerMs}
+	sc := simos.Script{StartErr: ps.StartErr, Endless: ps.Endless, ExitCode: ps.Exit, FinalMs: ps.FinalMs, Fork: ps.Fork, LingerMs: ps.LingerMs, DetachMs: clampInt(ps.DetachMs, 0, 3600000)}
 	i := 0
 	k := 0
 	for i < len(lines) {
@@ -340,7 +340,7 @@ func (r *sysRun) defaultBehave(p *simos.Proc) simos.Script {
 		ps = r.plan.Procs[r.genSeq[class]%len(r.plan.Procs)]
 	}
 	r.genSeq[class]++
-	sc := simos.Script{StartErr: ps.StartErr, Endless: ps.Endless, ExitCode: ps.Exit, FinalMs: ps.FinalMs, Fork: ps.Fork, LingerMs: ps.LingerMs}
+	sc := simos.Script{StartErr: ps.StartErr, Endless: ps.Endless, ExitCode: ps.Exit, FinalMs: ps.FinalMs, Fork: ps.Fork, LingerMs: ps.LingerMs, DetachMs: clampInt(ps.DetachMs, 0, 3600000)}
 	text := ps.Text
 	d := 0
 	if len(ps.DelaysMs) > 0 {
